@@ -8,6 +8,7 @@ pub mod c08;
 pub mod c10;
 pub mod c13;
 pub mod c14;
+pub mod c15;
 pub mod c16;
 pub mod c17;
 pub mod c18;
@@ -29,6 +30,7 @@ pub fn dispatch(name: &str, args: &[String]) -> i32 {
 		"c10" => c10::run(args),
 		"c13" => c13::run(args),
 		"c14" => c14::run(args),
+		"c15" => c15::run(args),
 		"c16" => c16::run(args),
 		"c17" => c17::run(args),
 		"c18" => c18::run(args),
@@ -63,6 +65,7 @@ fn replay(args: &[String]) -> i32 {
 		"c10" => c10::replay(&v["replay"]),
 		"c13" => c13::replay(&v["replay"]),
 		"c14" => c14::replay(&v["replay"]),
+		"c15" => c15::replay(&v["replay"]),
 		"c16" => c16::replay(&v["replay"]),
 		"c17" => c17::replay(&v["replay"]),
 		"c18" => c18::replay(&v["replay"]),
